@@ -166,7 +166,7 @@ impl<T: Carrier> Carrier for Vec<T> {
                 let fixed = size_for_vector(e).is_some();
                 Val::Vector(
                     (0..*d)
-                        .map(|i| T::gen_val(rng, e, if fixed { Pos::FixedVec } else if i + 1 == *d { Pos::VarVecLast } else { Pos::Elem }))
+                        .map(|i| T::gen_val(rng, e, { let _ = i; if fixed { Pos::FixedVec } else { Pos::Elem } }))
                         .collect(),
                 )
             }
@@ -422,6 +422,16 @@ carriers!(
         "bmap_string_vec_i32" => BTreeMap<String, Vec<i32>>,
         "tup1_i32" => (i32,), "tup2_i32_string" => (i32, String), "tup3_opt" => (Option<i32>, Option<String>, Option<Vec<f32>>),
         "tup2_nested" => ((i64,), Vec<i64>), "box_i32" => Box<i32>, "arc_string" => Arc<String>,
+        // external crates (differential only)
+        "chrono_date" => chrono_04::NaiveDate, "chrono_datetime" => chrono_04::DateTime<chrono_04::Utc>,
+        "chrono_time" => chrono_04::NaiveTime, "time_date" => time_03::Date,
+        "time_offsetdatetime" => time_03::OffsetDateTime, "time_time" => time_03::Time,
+        "bigint03" => num_bigint_03::BigInt, "bigint04" => num_bigint_04::BigInt,
+        "bigdecimal" => bigdecimal_04::BigDecimal, "vec_chrono_date" => Vec<chrono_04::NaiveDate>,
+        "opt_bigint04" => Option<num_bigint_04::BigInt>, "bmap_bigint04_bigdecimal" => BTreeMap<num_bigint_04::BigInt, bigdecimal_04::BigDecimal>,
+        "tup2_time" => (time_03::Date, Option<time_03::Time>), "mempty_chrono_time" => MaybeEmpty<chrono_04::NaiveTime>,
+        "secret08_string" => secrecy_08::Secret<String>, "secret10_string" => secrecy_10::SecretString,
+        "secretbox10_i64" => secrecy_10::SecretBox<i64>,
     ],
     hashed: [
         "hset_i32" => HashSet<i32>, "hset_string" => HashSet<String>, "hmap_string_i64" => HashMap<String, i64>,
